@@ -362,7 +362,9 @@ async def groupby(
 
     async for element in iterator:
         next_key = element if key is None else await key(element)
-        if next_key != group_key:
+        # Like itertools.groupby, treat identical keys as equal even if they don't compare
+        # equal to themselves (e.g. NaN)
+        if next_key is not group_key and next_key != group_key:
             completed_group = group_key, values
             group_key = next_key
             values = [element]
